@@ -277,16 +277,18 @@ def gen_platcalib(rng):
     return [gen_chans(rng, k, -32768, 32768), [[gen_label(rng, 256), gen_vec(rng, 2), gen_vec(rng, 12)] for _ in range(k)]]
 
 
-def gen_data2d(rng, big=5):
+def gen_data2d(rng, big=5, force_boundary=None):
     nc = gen_count(rng, 4)
     nf = items_count(rng, big)
     rows = []
     # the per-cell point count is a u16: now and then one cell sits at a boundary of 8/16-bit arithmetic
     boundary = rng.choice([255, 256, 257, 4095, 4096, 8191, 8192, 8193, 32767, 32768, 65535]) if rng.random() < 0.06 else None
+    if force_boundary is not None:
+        boundary, nc, nf = force_boundary, max(nc, 1), max(nf, 1)
     for _ in range(nf):
         row = []
         for _ in range(nc):
-            if rng.random() < 0.35:
+            if rng.random() < 0.35 and not (force_boundary is not None and boundary is not None):
                 row.append(None)
             elif boundary is not None:
                 x, y = gen_f32(rng), gen_f32(rng)
@@ -296,6 +298,13 @@ def gen_data2d(rng, big=5):
                 row.append([[gen_f32(rng), gen_f32(rng)] for _ in range(rng.choice([1, 1, 2, 3, 5]))])
         rows.append(row)
     return [nc, nf, gen_i32(rng), gen_f32(rng), rng.choice([0, 1]), gen_chans(rng, nc, 0, 32768), rows]
+
+
+def corner_cases(rng):
+    """blocks every run of a block session includes whatever its size and seed: values at the boundaries of the format's and numpy's
+    fixed-width arithmetic that a random draw reaches only now and then (a 2D cell of 8 192, 8 193, 65 535 points: 8 bytes per point
+    wrap a 16-bit product from 8 192 on)"""
+    return [("data2d", gen_data2d(rng, big=2, force_boundary=b)) for b in (8192, 8193, 65535)]
 
 
 def gen_calib(rng):
